@@ -11,6 +11,7 @@ import (
 	"path/filepath"
 	"sort"
 	"strings"
+	"sync"
 
 	"github.com/maruel/panicparse/v2/stack"
 	"pgregory.net/rapid"
@@ -422,4 +423,40 @@ func sortedKeys(m map[string]string) []string {
 	}
 	sort.Strings(k)
 	return k
+}
+
+// hostInterferes reports whether the machine the check runs on has something at the places the
+// dump's remote paths name: the library looks on the local disk for a go.mod above every file
+// of the dump (a dump may come from this machine), so a generated remote root like /lib/go/src
+// that happens to exist here (a Go installation, "module std") is not the layout that was
+// generated. Such cases are outside what the generator controls and are skipped.
+func hostInterferes(refs []string, base string) bool {
+	for _, r := range refs {
+		if !strings.HasPrefix(r, "/") || (base != "" && strings.HasPrefix(r, base+"/")) {
+			continue
+		}
+		if hostHas(r) {
+			return true
+		}
+		for d := path.Dir(r); ; d = path.Dir(d) {
+			if hostHas(strings.TrimSuffix(d, "/") + "/go.mod") {
+				return true
+			}
+			if d == "/" || d == "." {
+				break
+			}
+		}
+	}
+	return false
+}
+
+var hostSeen sync.Map
+
+func hostHas(p string) bool {
+	if v, ok := hostSeen.Load(p); ok {
+		return v.(bool)
+	}
+	_, err := os.Lstat(p)
+	hostSeen.Store(p, err == nil)
+	return err == nil
 }
